@@ -272,6 +272,55 @@ fn histories(ctx: &Ctx, acc: &mut Acc, l: L, depth: usize) {
     acc.count("iterator_merge_orders", orders);
 }
 
+/// Every ordered pair of short phrases (<= 2 words over a class alphabet enriched with thousand-compounds)
+/// as a 2-call history on one interpreter: the second call must give its fresh-interpreter result. This is
+/// the shape that exposes a memo keyed too coarsely (a word accepted in one context, refused in another).
+fn pair_histories(ctx: &Ctx, acc: &mut Acc, l: L, nwords: usize) {
+    let s = |n| spell::spell(l, n, Var::default());
+    let mut alpha: Vec<String> = crate::vocab::sigma_cls(l).into_iter().filter(|w| w.chars().any(|c| c.is_alphabetic())).take(nwords).collect();
+    let compounds: Vec<String> = match l {
+        L::De | L::Nl | L::It => vec![s(2000), s(20_000), s(21)],
+        L::En | L::Fr => vec![s(2000).replace(' ', "-"), s(20_000).replace(' ', "-"), s(22)],
+        _ => vec![s(22)],
+    };
+    for c in compounds {
+        if !alpha.contains(&c) {
+            alpha.push(c);
+        }
+    }
+    let n = alpha.len();
+    let mut phrases: Vec<String> = vec![];
+    for first in 0..n {
+        for_each_seq(n, 2, first, &mut |idx| phrases.push(idx.iter().map(|&i| alpha[i].as_str()).collect::<Vec<_>>().join(" ")));
+    }
+    let obs = |lang: &Language, p: &str| -> String {
+        guard(|| format!("{:?}|{}|{}", text2digits(p, lang).ok(), replace_numbers_in_text(p, lang, 0.0), replace_numbers_in_text(p, lang, 10.0))).unwrap_or_else(|e| e)
+    };
+    let expected: Vec<String> = phrases.iter().map(|p| obs(&l.facade(), p)).collect();
+    for (i, p) in phrases.iter().enumerate() {
+        for (j, q) in phrases.iter().enumerate() {
+            acc.states += 1;
+            acc.transitions += 2;
+            acc.traces += 1;
+            let lang = l.facade();
+            let first = obs(&lang, p);
+            let second = obs(&lang, q);
+            if first != expected[i] || second != expected[j] {
+                ctx.report(acc, Violation {
+                    lang: l.code().into(),
+                    entry: "history".into(),
+                    input: format!("calls on {p:?}; then calls on {q:?} (same interpreter)"),
+                    threshold: None,
+                    clause: "result(c | one earlier call) = result(c | fresh interpreter)".into(),
+                    expected: expected[j].clone(),
+                    observed: second,
+                });
+            }
+        }
+    }
+    acc.count("pair_history_phrases", phrases.len() as u64);
+}
+
 /// Histories across languages on the SAME texts with different thresholds: a cache or global keyed
 /// too coarsely (text only, first language, first threshold) shows up here.
 fn cross_language_histories(ctx: &Ctx, acc: &mut Acc, depth: usize) {
@@ -334,11 +383,16 @@ fn acc_step<A: Iterator<Item = text2num::Occurence>, B: Iterator<Item = text2num
 
 fn schedules(ctx: &Ctx, acc: &mut Acc, l: L, tier: Tier, instrumented: bool) {
     let expected: Vec<String> = (0..NCALLS).map(|i| call_on(&l.facade(), l, i, true)).collect();
-    let shared: Arc<ForceShare<Language>> = Arc::new(ForceShare(l.facade()));
+    // the interpreter shared by the threads of one execution; a fresh one for every execution
+    let slot: Arc<std::sync::Mutex<Arc<ForceShare<Language>>>> = Arc::new(std::sync::Mutex::new(Arc::new(ForceShare(l.facade()))));
     let mk = |calls: Vec<usize>| -> Body<Vec<String>> {
-        let sh = shared.clone();
-        Arc::new(move || calls.iter().map(|&c| call_on(&sh.0, l, c, true)).collect())
+        let slot = slot.clone();
+        Arc::new(move || {
+            let sh = slot.lock().unwrap().clone();
+            calls.iter().map(|&c| call_on(&sh.0, l, c, true)).collect()
+        })
     };
+    let reset = || *slot.lock().unwrap() = Arc::new(ForceShare(l.facade()));
     // the instrumented build has many more scheduling points per call: fewer programs, same bounds
     // (program, preemption bound): all ordered pairs at bound 1; a core of pairs at bound 2 (thorough);
     // two calls per thread and three threads at bound 1
@@ -380,7 +434,7 @@ fn schedules(ctx: &Ctx, acc: &mut Acc, l: L, tier: Tier, instrumented: bool) {
         let name = prog.iter().enumerate().map(|(t, cs)| format!("T{t}: {}", cs.iter().map(|&c| call_name(c)).collect::<Vec<_>>().join(", "))).collect::<Vec<_>>().join(" || ");
         let mut outcomes: std::collections::BTreeSet<String> = Default::default();
         let mut bad: Vec<(Vec<usize>, String)> = vec![];
-        let ex = sched::explore(&bodies, bound, &mut |choices, results: &[Vec<String>]| {
+        let ex = sched::explore(&bodies, bound, &reset, &mut |choices, results: &[Vec<String>]| {
             outcomes.insert(format!("{results:?}"));
             for (t, cs) in prog.iter().enumerate() {
                 for (k, &c) in cs.iter().enumerate() {
@@ -396,6 +450,7 @@ fn schedules(ctx: &Ctx, acc: &mut Acc, l: L, tier: Tier, instrumented: bool) {
         acc.traces += ex.executions;
         acc.count("schedules_infeasible", ex.infeasible);
         acc.count("schedules_with_a_blocked_thread_left_loose", ex.overlapped);
+        acc.count("schedules_given_up_because_a_prefix_could_not_be_replayed", ex.diverged);
         for d in ex.deadlocks.iter().take(1) {
             ctx.report(acc, Violation {
                 lang: l.code().into(),
@@ -416,6 +471,7 @@ fn schedules(ctx: &Ctx, acc: &mut Acc, l: L, tier: Tier, instrumented: bool) {
             // replay the recorded schedule twice before believing it
             let again: Vec<bool> = (0..2)
                 .map(|_| {
+                    reset();
                     let x = sched::run_once(&bodies, choices);
                     prog.iter().enumerate().any(|(t, cs)| cs.iter().enumerate().any(|(k, &c)| x.results.get(t).and_then(|r| r.get(k)) != Some(&expected[c])))
                 })
@@ -694,6 +750,20 @@ pub fn run(tier: Tier) -> i32 {
         histories(&ctx, &mut acc, l, tier.pick(2, 3));
     }
     cross_language_histories(&ctx, &mut acc, tier.pick(2, 3));
+    {
+        use rayon::prelude::*;
+        let parts: Vec<Acc> = langs::ALL
+            .par_iter()
+            .map(|l| {
+                let mut a = Acc::new();
+                pair_histories(&ctx, &mut a, *l, tier.pick(12, 18));
+                a
+            })
+            .collect();
+        for a in parts {
+            acc.merge(a);
+        }
+    }
     // 2. schedules: one exploration per language, run side by side (each exploration runs exactly one
     // of its threads at a time, so seven of them fit on the machine without disturbing each other)
     {
@@ -762,7 +832,7 @@ pub fn run(tier: Tier) -> i32 {
     acc.nontrivial = acc.states;
     let cov = json!({
         "exhaustive": true,
-        "rule": "(1) every history of <= k calls from a 10-call alphabet (whole calls and abandoned lazy scans) on one shared interpreter and on two interleaved interpreters, plus every merge order of the next() calls of two live lazy searches; (2) for 2-thread (and some 3-thread) programs over the call alphabet sharing one interpreter, every interleaving of scheduling points (call boundaries + every library callback into harness code: stream next(), first Token/BasicAnnotate method call per token, set_nan, Replace::replace + through the cfg-guarded yield hook the entry of every mutating DigitString operation inside the library) with at most `preemption_bound` preemptions, explored by re-execution under a controlled scheduler (one thread runs at a time); every call's result compared with its sequential fresh-interpreter result; (3) compile probe for Send + Sync; (4) child process with piped stdout/stderr",
+        "rule": "(1) every history of <= k calls from a 10-call alphabet (whole calls and abandoned lazy scans) on one shared interpreter and on two interleaved interpreters, plus every merge order of the next() calls of two live lazy searches, plus every ordered pair of phrases of <= 2 words (class words and thousand-compounds) as a 2-call history; (2) for 2-thread (and some 3-thread) programs over the call alphabet sharing one interpreter, every interleaving of scheduling points (call boundaries + every library callback into harness code: stream next(), first Token/BasicAnnotate method call per token, set_nan, Replace::replace + through the cfg-guarded yield hook the entry of every mutating DigitString operation inside the library) with at most `preemption_bound` preemptions, explored by re-execution under a controlled scheduler (one thread runs at a time); every call's result compared with its sequential fresh-interpreter result; (3) compile probe for Send + Sync; (4) child process with piped stdout/stderr",
         "bounds": {"history_depth": tier.pick(2, 3), "preemption_bounds": tier.pick("1 for every program", "1 for every program; 2 for the 16 pairs over {find_numbers(P1), replace_numbers_in_stream(P1), basic_annotate+find(P2), text2digits(compound)} and one 3-thread program"), "threads": "2 (all ordered call pairs), 3 (selected)", "calls": (0..NCALLS).map(call_name).collect::<Vec<_>>()},
         "instrumented_synchronisation_stage": shim_note,
         "note": "states = histories + merge orders + schedules executed; one distinct outcome per program is expected on code without shared mutable state; detection power is demonstrated by seeded mutants (DESIGN.md)",
